@@ -26,7 +26,7 @@ theorem committed_agree {N : Nat} {s1 s2 : State} {as : List Action} (h1 : Reach
     (s1.nodes a).log[p]? = (s2.nodes b).log[p]? := by
   have i1 := inv_reachable h1
   have i2 := inv_run i1 hr
-  have hm := run_mono i1 hr
+  have hm := run_ghost_mono i1 hr
   have c1 := cmt_later hm (i1.s.C1 a)
   have c2 := i2.s.C1 b
   rcases cmt_comparable i2.l i2.s c1 c2 with hc | hc
@@ -85,7 +85,7 @@ theorem leader_unique_ever {N : Nat} {s1 s2 : State} {as : List Action} (h1 : Re
     (hb : (s2.nodes b).role = .leader) (ht : (s1.nodes a).term = (s2.nodes b).term) : a = b := by
   have i1 := inv_reachable h1
   have i2 := inv_run i1 hr
-  have hm := run_mono i1 hr
+  have hm := run_ghost_mono i1 hr
   have l1 := hm.ldr _ _ (i1.e.ldr_of a ha)
   have l2 := i2.e.ldr_of b hb
   rw [ht, l2] at l1; injection l1 with l1; exact l1.symm
@@ -94,8 +94,17 @@ theorem leader_unique_ever {N : Nat} {s1 s2 : State} {as : List Action} (h1 : Re
 theorem applied_step {N : Nat} {s s' : State} {a : Action} (hs : step N s a = some s') (n : Nat) :
     (s'.nodes n).applied = (s.nodes n).applied ∨
     (a = .apply n ∧ (s'.nodes n).applied = (s.nodes n).applied + 1) ∨
-    (∃ m, a = .recvSnapshot n m ∧ (s.nodes n).applied < (s'.nodes n).applied) := by
+    (∃ m, a = .recvSnapshot n m ∧ (s.nodes n).applied < (s'.nodes n).applied) ∨
+    (∃ c a', a = .restart n c a') := by
   cases a with
+  | restart k c a' =>
+    simp only [step] at hs
+    split at hs
+    · injection hs with hs; subst hs
+      by_cases hk : n = k
+      · subst hk; right; right; right; exact ⟨_, _, rfl⟩
+      · left; simp [setNode, hk]
+    · cases hs
   | apply k =>
     simp only [step] at hs
     split at hs
@@ -118,7 +127,7 @@ theorem applied_step {N : Nat} {s s' : State} {a : Action} (hs : step N s a = so
             · left; simp
             · rename_i hkeep
               simp only [adoptTerm_applied, Bool.or_eq_true, decide_eq_true_eq, not_or] at hkeep
-              right; right; exact ⟨_, rfl, by simp; omega⟩
+              right; right; left; exact ⟨_, rfl, by simp; omega⟩
           · left; simp [setNode, hk]
       · cases hs
     · cases hs
